@@ -70,6 +70,11 @@ type Summary struct {
 
 // RunCase executes one cell with one seeded concretisation.
 func (w *World) RunCase(n int, q Q, r *rand.Rand, bigLen int) Line {
+	if q.Fam == "id" && r.Intn(4) == 0 {
+		// the identity / cookie rules hold whatever the signing configuration: a quarter of the C03 cells is run as
+		// its "nothing is signed" variant (recorded as such), half of those through skip_request_signing: true
+		q.Signer, q.Hmac = false, false
+	}
 	px := w.Px[0]
 	if q.Signer {
 		px = w.Px[1]
@@ -80,6 +85,12 @@ func (w *World) RunCase(n int, q Q, r *rand.Rand, bigLen int) Line {
 		preflight = r.Intn(2) == 0 // irrelevant to any method but OPTIONS
 	}
 	svc := svcName(q.Pass, q.Inject, preflight, q.Hmac)
+	if !q.Signer && !q.Hmac && r.Intn(2) == 0 {
+		// nothing is to be signed in this cell: half of the time through an upstream with skip_request_signing: true
+		// (on either proxy - the RSA signer, if any, must not sign there)
+		svc = skipSignName(q.Pass, q.Inject, preflight)
+		px = w.Px[r.Intn(2)]
+	}
 	host := hostOf(svc)
 	sess := forge(q, host, r)
 	sealed := px.P.Seal(sess)
@@ -344,7 +355,7 @@ func RunCells(in, out string, seed int64, sample, reps, workers, base int, noshu
 		// the small families are never sampled away
 		keep := idx[:sample]
 		for _, ci := range idx[sample:] {
-			if f := cells[ci].Q.Fam; f == "hop" || f == "mini" {
+			if f := cells[ci].Q.Fam; f == "hop" || f == "mini" || f == "inj" {
 				keep = append(keep, ci)
 			}
 		}
